@@ -492,9 +492,14 @@ func (p *RegProcessor) processBdReq(c2sPayload *pb.C2SWrapper) (*pb.Registration
 	}
 
 	phantomSubnetSupportsRandPort := true
-	if c2s.GetV4Support() {
+	if c2s.GetV4Support() || c2s.GetV6Support() {
+		// One read lock for both selections: taking it a second time while a reload is waiting
+		// for the write lock deadlocks (a blocked writer excludes new readers), and one lock also
+		// guarantees that both addresses come from the same subnet set.
 		p.selectorMutex.RLock()
 		defer p.selectorMutex.RUnlock()
+	}
+	if c2s.GetV4Support() {
 		phantom4, err := p.ipSelector.Select(
 			cjkeys.ConjureSeed,
 			uint(c2s.GetDecoyListGeneration()), //generation type uint
@@ -513,8 +518,6 @@ func (p *RegProcessor) processBdReq(c2sPayload *pb.C2SWrapper) (*pb.Registration
 	verifhook.Yield("bdreq:between-selections")
 
 	if c2s.GetV6Support() {
-		p.selectorMutex.RLock()
-		defer p.selectorMutex.RUnlock()
 		phantom6, err := p.ipSelector.Select(
 			cjkeys.ConjureSeed,
 			uint(c2s.GetDecoyListGeneration()),
